@@ -112,5 +112,13 @@ func corpus() []caseInput {
 			Groups: []gGrp{{"g1", l("IP_10.1.1.1", "IP_10.1.1.2", "IP_10.1.1.5")}, {"g3", l("IP_10.1.1.3")}}, Addrs: A, Svcs: S},
 		gVsys{Rules: []gRule{ru("r1", l("g3"), l("any"), l("tcp 80")), ru("r2", l("g3"), l("any"), l("udp 123"))},
 			Groups: []gGrp{{"g3", l("IP_10.1.1.3", "IP_10.1.1.4")}}, Addrs: A, Svcs: S}))
+	// device as an earlier approve left it: r1-1 next to r1; the target's r1 changes again and must
+	// not be renamed to r1-1
+	drop := ru("r1", l("IP_10.1.1.1"), l("any"), l("tcp 80"))
+	drop.Action = "drop"
+	cs = append(cs, pair("corpus:renamed-rule-kept",
+		gVsys{Rules: []gRule{ru("r1-1", l("IP_10.1.1.2"), l("any"), l("udp 123")), ru("r1", l("IP_10.1.1.1"), l("any"), l("tcp 80"))},
+			Addrs: A[:2], Svcs: S},
+		gVsys{Rules: []gRule{drop, ru("r2", l("IP_10.1.1.2"), l("any"), l("udp 123"))}, Addrs: A[:2], Svcs: S}))
 	return cs
 }
